@@ -51,6 +51,7 @@ struct req0_ctx {
 	nni_aio      *recv_aio;   // user aio waiting to recv - only one!
 	nni_aio      *send_aio;   // user aio waiting to send
 	nng_msg      *req_msg;    // request message (owned by protocol)
+	bool          req_owned;  // we hold a reference to req_msg
 	size_t        req_len;    // length of request message (for stats)
 	nng_msg      *rep_msg;    // reply message
 	nni_duration  retry;
@@ -367,11 +368,15 @@ req0_recv_cb(void *arg)
 	nni_id_remove(&s->requests, id);
 	ctx->request_id = 0;
 	if (ctx->req_msg != NULL) {
-		// Only free msg if we originally cloned it (for retries)
-		if (ctx->retry > 0) {
+		// Only free msg if we still hold a reference to it (we do
+		// not after handing it to a pipe with retries disabled).
+		// This must not depend on the current value of ctx->retry,
+		// which the application may have changed since.
+		if (ctx->req_owned) {
 			nni_msg_free(ctx->req_msg);
 		}
-		ctx->req_msg = NULL;
+		ctx->req_owned = false;
+		ctx->req_msg   = NULL;
 	}
 
 	// Is there an aio waiting for us?
@@ -465,7 +470,8 @@ req0_ctx_fini(void *arg)
 	if ((aio = ctx->send_aio) != NULL) {
 		ctx->send_aio = NULL;
 		nni_aio_set_msg(aio, ctx->req_msg);
-		ctx->req_msg = NULL;
+		ctx->req_msg   = NULL;
+		ctx->req_owned = false;
 		nni_aio_finish_error(aio, NNG_ECLOSED);
 	}
 	req0_ctx_reset(ctx);
@@ -548,6 +554,9 @@ req0_run_send_queue(req0_sock *s, nni_aio_completions *sent_list)
 		// retries)
 		if (ctx->retry > 0) {
 			nni_msg_clone(ctx->req_msg);
+			ctx->req_owned = true;
+		} else {
+			ctx->req_owned = false;
 		}
 		nni_aio_set_msg(&p->aio_send, ctx->req_msg);
 		nni_pipe_send(p->pipe, &p->aio_send);
@@ -568,11 +577,15 @@ req0_ctx_reset(req0_ctx *ctx)
 		ctx->request_id = 0;
 	}
 	if (ctx->req_msg != NULL) {
-		// Only free msg if we originally cloned it (for retries)
-		if (ctx->retry > 0) {
+		// Only free msg if we still hold a reference to it (we do
+		// not after handing it to a pipe with retries disabled).
+		// This must not depend on the current value of ctx->retry,
+		// which the application may have changed since.
+		if (ctx->req_owned) {
 			nni_msg_free(ctx->req_msg);
 		}
-		ctx->req_msg = NULL;
+		ctx->req_owned = false;
+		ctx->req_msg   = NULL;
 	}
 	if (ctx->rep_msg != NULL) {
 		nni_msg_free(ctx->rep_msg);
@@ -599,7 +612,8 @@ req0_ctx_cancel_recv(nni_aio *aio, void *arg, nng_err rv)
 	if (ctx->send_aio != NULL) {
 		nni_aio_set_msg(ctx->send_aio, ctx->req_msg);
 		nni_msg_header_clear(ctx->req_msg);
-		ctx->req_msg = NULL;
+		ctx->req_msg   = NULL;
+		ctx->req_owned = false;
 		nni_aio_finish_error(ctx->send_aio, NNG_ECANCELED);
 		ctx->send_aio = NULL;
 		nni_list_remove(&s->send_queue, ctx);
@@ -689,7 +703,8 @@ req0_ctx_cancel_send(nni_aio *aio, void *arg, nng_err rv)
 		// Restore the message back to the aio.
 		nni_aio_set_msg(aio, ctx->req_msg);
 		nni_msg_header_clear(ctx->req_msg);
-		ctx->req_msg = NULL;
+		ctx->req_msg   = NULL;
+		ctx->req_owned = false;
 
 		// Cancellation of a pending receive is treated as aborting the
 		// entire state machine.  This allows us to preserve the
@@ -728,7 +743,8 @@ req0_ctx_send(void *arg, nni_aio *aio)
 	if (ctx->send_aio != NULL) {
 		nni_aio_set_msg(ctx->send_aio, ctx->req_msg);
 		nni_msg_header_clear(ctx->req_msg);
-		ctx->req_msg = NULL;
+		ctx->req_msg   = NULL;
+		ctx->req_owned = false;
 		nni_aio_finish_error(ctx->send_aio, NNG_ECANCELED);
 		ctx->send_aio = NULL;
 		nni_list_remove(&s->send_queue, ctx);
@@ -755,9 +771,10 @@ req0_ctx_send(void *arg, nni_aio *aio)
 		nni_mtx_unlock(&s->mtx);
 		return;
 	}
-	ctx->req_len  = nni_msg_len(msg);
-	ctx->req_msg  = msg;
-	ctx->send_aio = aio;
+	ctx->req_len   = nni_msg_len(msg);
+	ctx->req_msg   = msg;
+	ctx->req_owned = true;
+	ctx->send_aio  = aio;
 	nni_aio_set_msg(aio, NULL);
 
 	if (ctx->retry > 0) {
